@@ -388,6 +388,12 @@ impl DistinguishedName {
 				_ => return Err(Error::CouldNotParseCertificate),
 			};
 
+			// `DistinguishedName` holds one value per attribute type: a name that repeats a
+			// type (DC=example,DC=com; several OUs) cannot be represented, and keeping only
+			// the last value would change the name
+			if dn.get(&dn_type).is_some() {
+				return Err(Error::CouldNotParseCertificate);
+			}
 			dn.push(dn_type, dn_value);
 		}
 		Ok(dn)
